@@ -892,9 +892,11 @@ package xmpp
 //@   ensures [C04.newclient.transport] (err == nil && typeof(c.transport) == *XMPPTransport) ==> c.transport.(*XMPPTransport) != nil && c.transport.(*XMPPTransport).Config.Domain == config.Domain && c.transport.(*XMPPTransport).Config.TLSConfig == config.TLSConfig
 //@   ensures [C04.newclient.insecure]  err == nil ==> config.Insecure == old(config.Insecure)
 //@   ensures [C14.newclient.jid]       err == nil ==> config.parsedJid != nil && config.parsedJid.Node == stanza.jLocal(old(config.Jid)) && config.Credential == old(config.Credential)
+//@   ensures [C18.newclient.interval]  err == nil ==> config.KeepaliveInterval == ite(old(config.KeepaliveInterval) == 0, 30000000000, old(config.KeepaliveInterval))
 //@   assigns *config
 //@   loop 1:
 //@     invariant config != nil && config.parsedJid != nil && config.Domain == old(config.Domain) && config.Insecure == old(config.Insecure) && config.TLSConfig == old(config.TLSConfig)
+//@     invariant config.KeepaliveInterval == ite(old(config.KeepaliveInterval) == 0, 30000000000, old(config.KeepaliveInterval))
 //@     invariant 0 <= $i && $i <= len($range) && bestSrv != nil && forall(k, 0, len($range), $range[k] != nil)
 //
 // The goroutine connect() starts after a failed negotiation only waits for the server's closing tag. There is no
